@@ -19,7 +19,7 @@ RULE = ("(A) retry model on virtual time: for every retry budget r in 1..4, ever
         "reference: transmissions at 0,2,4,.. until the first response arrival A, count = min(r, floor(A/2)+1), success iff A < 2r, return "
         "instant = A (or 2r for the timeout); no transmission after A. (B) faults: every single fault and every ordered pair of consecutive "
         "faulted exchanges from {drop, wedged connection, error packet, garbage, error/garbage/cancel followed by a wedged connection, peer FIN, peer RST, refused connect, hanging connect, "
-        "accept-then-close, cancellation} in the phases where they apply (connect, handshake, data), after an initial successful exchange; the "
+        "accept-then-close, cancellation} in the phases where they apply (connect, handshake, data), with max_connection_lifetime in {None, 90 s, 1 h}, after an initial successful exchange; the "
         "following exchange against a promptly answering device must succeed with no user intervention; the same at device level: refresh() "
         "never raises, reports online=False for the failed exchange and online=True afterwards. (C) cancellation instants swept over the "
         "exchange on a 0.1 s grid. distinct = (workload, version, parameters); all non-trivial")
@@ -42,7 +42,7 @@ KEY = bytes(range(90, 122))
 # (phase, fault)
 FAULTS_V3 = [("connect", "refuse"), ("connect", "hang"), ("connect", "accept-rst"), ("connect", "accept-fin"),
              ("handshake", "drop"), ("handshake", "error"), ("handshake", "garbage"), ("handshake", "fin"), ("handshake", "rst"),
-             ("handshake", "cancel"),
+             ("handshake", "cancel"), ("handshake", "slow-cancel"),
              ("data", "drop"), ("data", "wedge"), ("data", "error"), ("data", "garbage"), ("data", "fin"), ("data", "rst"), ("data", "cancel"),
              ("data", "error-wedge"), ("data", "garbage-wedge"), ("data", "cancel-wedge")]
 FAULTS_V2 = [f for f in FAULTS_V3 if f[0] != "handshake"]
@@ -57,10 +57,12 @@ def generate(ctx, rng):
                 yield ("retry", version, r, i), {"kind": "retry", "version": version, "r": r, "patterns": [list(p) for p in pats[i:i + 54]]}
         faults = FAULTS_V3 if version == 3 else FAULTS_V2
         for f in faults:
-            yield ("fault", version, f), {"kind": "faults", "version": version, "seq": [list(f)], "level": "lan"}
-            yield ("fault-dev", version, f), {"kind": "faults", "version": version, "seq": [list(f)], "level": "device"}
-        for f, g in itertools.product(faults, repeat=2):
-            yield ("fault2", version, f, g), {"kind": "faults", "version": version, "seq": [list(f), list(g)], "level": "lan"}
+            for lt in (None, 90, 3600):
+                yield ("fault", version, f, lt), {"kind": "faults", "version": version, "seq": [list(f)], "level": "lan", "lifetime": lt}
+                yield ("fault-dev", version, f, lt), {"kind": "faults", "version": version, "seq": [list(f)], "level": "device", "lifetime": lt}
+        for n2, (f, g) in enumerate(itertools.product(faults, repeat=2)):
+            lt = [None, 90, None, 3600][n2 % 4]
+            yield ("fault2", version, f, g), {"kind": "faults", "version": version, "seq": [list(f), list(g)], "level": "lan", "lifetime": lt}
             if not quick:
                 yield ("fault2-dev", version, f, g), {"kind": "faults", "version": version, "seq": [list(f), list(g)], "level": "device"}
         if not quick:
@@ -221,7 +223,7 @@ def _arm(dev, st, phase, fault):
     if phase == "connect":
         if fault in ("refuse", "hang"):
             dev.connect_script = [fault]
-    if fault in ("cancel", "cancel-wedge"):
+    if fault in ("cancel", "cancel-wedge", "slow-cancel"):
         st["cancel"] = True
 
 
@@ -262,6 +264,8 @@ def _faults(ctx, case):
 
     def on_handshake(conn, ok, reply, info):
         if st["armed"] and st["phase"] == "handshake":
+            if st["fault"] == "slow-cancel":
+                return [(0.45, reply)] if ok else None     # genuine reply, but it arrives after the caller gave up (cancel at 0.41 s)
             return fault_actions(conn, "hs")
         return None
 
@@ -308,6 +312,8 @@ def _faults(ctx, case):
     async def go(loop):
         ac = AC(ip=dev.host, port=dev.port, device_id=dev.device_id)
         lan = ac._lan
+        if case.get("lifetime") is not None:
+            ac.set_max_connection_lifetime(case["lifetime"])
         if version == 3:
             await ac.authenticate(TOKEN, KEY)
         q = acframe.state_query(9)
@@ -325,7 +331,7 @@ def _faults(ctx, case):
         log.append(("recovery",) + await exchange(loop, ac, lan, q))
         log.append(("conns-for-recovery", len(dev.conns) - n_conns, None))
 
-    key = ("faults", version, level, tuple(map(tuple, case["seq"])))
+    key = ("faults", version, level, case.get("lifetime"), tuple(map(tuple, case["seq"])))
     try:
         H.run_virtual(go, net)
     except Exception as e:  # noqa: BLE001
@@ -345,7 +351,7 @@ def _faults(ctx, case):
         ctx.violation(f"no-recovery/{_last_fault(case)}", f"exchange after faults [{fclass}] failed: {rec[1:]} ({level} level, V{version})", case,
                       {"log": log})
     else:
-        ctx.count(key, kind="recovery-ok", sample={"version": version, "level": level, "faults": fclass, "log": log})
+        ctx.count(key, kind="recovery-ok", sample={"version": version, "level": level, "lifetime": case.get("lifetime"), "faults": fclass, "log": log})
     if level == "device":
         for e in log[1:-2]:
             if e[1].startswith("exc:") and e[1] != "exc:CancelledError":
